@@ -36,7 +36,7 @@ CHECKS = {
     'C03': dict(
         level='exploration',
         units=[U('^TestC03$', (8, 20000), (16, 400000))],
-        essential_labels=['kind:log', 'kind:linear', 'kind:cubic', 'built:alpha', 'built:gamma', 'offset:2^30', 'offset:int32-bound', 'offset:small', 'offset:default', 'probe:bin-edge', 'probe:bin-edge-neighbourhood', 'probe:binade-edge', 'probe:range-end'],
+        essential_labels=['kind:log', 'kind:linear', 'kind:cubic', 'built:alpha', 'built:gamma', 'offset:2^30', 'offset:int32-bound', 'offset:engineered-integer-boundary', 'offset:engineered-exact-hit', 'offset:small', 'offset:default', 'probe:bin-edge', 'probe:bin-edge-neighbourhood', 'probe:binade-edge', 'probe:range-end'],
         assumptions=COMMON_ASSUMPTIONS + ["floating-point slack 64*2^-52*(1+|ln v|+(|i|+|offset|)*ln gamma) on accuracy and bin containment (DESIGN §1.1)", "the bin after the last indexable one is not asserted (its lower bound overflows for interpolated mappings)"],
     ),
     'C19': dict(
